@@ -130,7 +130,7 @@ func main() {
 			ca2 := clientMsgs(wd, s, c2, 2)[1]
 			f, _ := hopkit.FieldOf(ca, "cookie")
 			copy(ca2[f.Off:f.Off+f.Len], ca[f.Off:f.Off+f.Len]) // c1's cookie inside c2's acknowledgement (c2's client key)
-			ca, src = ca2, a1                                  // ... presented from c1's address
+			ca, src = ca2, a1                                   // ... presented from c1's address
 		case "rotated":
 			s.T.VerifRotateCookieKey()
 		case "tampered-cookie":
@@ -155,6 +155,7 @@ func main() {
 		wait  time.Duration
 		skew  int64 // hidden requests are generated right before delivery with this client clock skew
 		gen   bool
+		via   bool // the server's transport configuration comes from a real hop server
 	}
 	var probes []probe
 	{
@@ -227,6 +228,11 @@ func main() {
 		d := genHR(false)
 		probes = append(probes, probe{class: "hr-trunc", data: d[:len(d)-cut], wait: 0})
 	}
+	// the genuine first messages of the discoverable handshake meet both kinds of hidden server
+	for _, pr := range probes[:4] {
+		pr.via = true
+		probes = append(probes, pr)
+	}
 	var mu, genMu sync.Mutex
 	var wg sync.WaitGroup
 	for i, pr := range probes {
@@ -235,7 +241,9 @@ func main() {
 			defer wg.Done()
 			wd := hopkit.NewWorld()
 			defer wd.Close()
-			s := wd.NewServer(sa, hopkit.SrvOpt{Ident: sid, KEM: kem, Hidden: true})
+			// every second probe meets a server whose transport configuration was derived by a real hop server
+			// from a configuration with per-name keys (hidden-mode activation included)
+			s := wd.NewServer(sa, hopkit.SrvOpt{Ident: sid, KEM: kem, Hidden: true, ViaHopServer: i%2 == 1 || pr.via, Patterns: []string{"*"}})
 			time.Sleep(pr.wait)
 			if pr.gen {
 				genMu.Lock()
